@@ -6,11 +6,11 @@
 pub struct ConsensusFlags { pub bits: u32 }
 
 //@extract crates/chia-consensus/src/flags.rs macro_call:bitflags
-//@sub 1 bitflags! \{ => 
-//@sub 1 #\[derive\([^\]]*\)\] => 
-//@sub 1 pub struct ConsensusFlags: u32 \{ => impl ConsensusFlags {
-//@sub 19 const (\w+) = (0x[0-9a-fA-F_]+); => pub const \1: ConsensusFlags = ConsensusFlags { bits: \2 };
-//@sub 1 \}(\s*)\}$ => }\1
+//@sub 1 bitflags! \{ =>> 
+//@sub 1 #\[derive\([^\]]*\)\] =>> 
+//@sub 1 pub struct ConsensusFlags: u32 \{ =>> impl ConsensusFlags {
+//@sub 19 const (\w+) = (0x[0-9a-fA-F_]+); =>> pub const \1: ConsensusFlags = ConsensusFlags { bits: \2 };
+//@sub 1 \}(\s*)\}$ =>> }\1
 //@end
 
 impl ConsensusFlags {
